@@ -682,6 +682,9 @@ class MinMaxAggregator:
             if minmaxpred is not None and list(map(lambda x: x.pred, predicates(cond, {Sign.NoSign}))) == [
                 minmaxpred[1].oldpred
             ]:
+                if oldmax is not None:
+                    log.info(f"Cannot use chaining in {loc2str(stm.location)} as the result predicate occurs twice.")
+                    return [stm]
                 oldmax = cond
             else:
                 rest_cond.append(cond)
@@ -748,6 +751,8 @@ class MinMaxAggregator:
             if minmaxpred is not None and list(map(lambda x: x.pred, predicates(cond, {Sign.NoSign}))) == [
                 minmaxpred[1].oldpred
             ]:
+                if oldmax is not None:
+                    return None, None, list(elem.condition)  # two result literals: only one of them can be chained
                 oldmax = cond
             else:
                 rest_cond.append(cond)
